@@ -253,7 +253,7 @@ def _docs(tier):
     return _DOCS[tier]
 
 
-GRID_SLOTS = [1, 2, 3, 4, 5, 6, 7, 8, 9, 12, 16, 24, 32, 48, 64, 96, 192]
+GRID_SLOTS = [1, 2, 3, 4, 5, 6, 7, 8, 9, 12, 16, 24, 32, 48, 64, 96, 192, 255, 256, 257, 384, 1000]  # the event count of a package is a 16-bit field
 
 
 LARGE = dict(quick=[(40, 300), (300, 2500)], thorough=[(40, 300), (300, 2500), (999, 8000)])
